@@ -703,6 +703,7 @@ myth_thread_t myth_wsapi_runqueue_take(int victim,
   myth_wscache_t wc;
   myth_thread_t ret;
   int b,top;
+  (void)myth_ensure_init(); /* may be the first use of the library */
   q = &g_envs[victim].runnable_q;
   wc = &q->wc;
 #if QUICK_CHECK_ON_STEAL
@@ -762,6 +763,7 @@ myth_thread_t myth_wsapi_runqueue_take(int victim,
 myth_thread_t myth_wsapi_runqueue_peek(int victim,void *ptr,size_t *psize) {
   myth_thread_queue_t q;
   myth_wscache_t wc;
+  (void)myth_ensure_init(); /* may be the first use of the library */
   q=&g_envs[victim].runnable_q;
   wc=&q->wc;
  start:;
@@ -885,16 +887,21 @@ myth_thread_t myth_wsapi_runqueue_peek(int victim,void *ptr,size_t *psize) {
 
 int myth_wsapi_runqueue_pass(int target,myth_thread_t th) {
   //fprintf(stderr,"pass %d %p\n",target,th);
+  (void)myth_ensure_init();
   return myth_queue_trypass(&g_envs[target].runnable_q,th);
 }
 
 void myth_wsapi_runqueue_push(myth_thread_t th) {
+  int init_=myth_ensure_init();
   myth_running_env_t env=myth_get_current_env();
+  (void)init_;
   myth_queue_push(&env->runnable_q,th);
 }
 
 myth_thread_t myth_wsapi_runqueue_pop(void) {
+  int init_=myth_ensure_init(); /* may be the first use of the library */
   myth_running_env_t env=myth_get_current_env();
+  (void)init_;
   return myth_queue_pop(&env->runnable_q);
 }
 
